@@ -343,7 +343,7 @@ def run(ctx, spec):
                     RS ^= {c} if rng.random() < 0.6 else set()
                     col.append({"cls": "MeshPatt", "p": list(r), "s": sorted(map(list, RS))})
                 ctx.count("collections.long_and_induced_short")
-            for _rep in range(3):
+            for _rep in range(3 if ctx.tier == "quick" else 1):
                 # "blocked region": in a pattern q a whole region between some kept points is shaded although dropped points sit
                 # inside it, so the pattern induced on the kept points may NOT shade the corresponding cell; the short pattern of
                 # the collection shades exactly that cell (it is then not contained in q through these points)
